@@ -182,7 +182,7 @@ static inline int spec_ed_key(struct ed_ref *r, char c, const struct ed_oracle *
             r->browse = 0;
             ret = ED_NEWLINE;
         } else if (c == ED_KEY_BS) {
-            ret = spec_ed_backspace(&r->l, 1, o->line_kp1) ? ED_BACKSPACE : ED_NOTHING;
+            ret = spec_ed_backspace(&r->l, 1, spec_ed_backspace_count(&r->l, 1) ? o->line_kp1 : r->l.at_k) ? ED_BACKSPACE : ED_NOTHING;
         } else if (c == ED_KEY_ESC) {
             r->esc = 1;
         } else {
@@ -203,7 +203,7 @@ static inline int spec_ed_key(struct ed_ref *r, char c, const struct ed_oracle *
         } else if (c == 'D') {
             if (spec_ed_left(&r->l)) ret = ED_LEFT;
         } else if (c == '3') {
-            if (spec_ed_delete(&r->l, 1, o->line_kp1)) ret = ED_DELETE;
+            if (spec_ed_delete(&r->l, 1, spec_ed_delete_count(&r->l, 1) ? o->line_kp1 : r->l.at_k)) ret = ED_DELETE;
             r->esc = 3;
         }
         break;
@@ -235,27 +235,40 @@ static inline void spec_term_fresh(struct term_ref *t)
     t->fresh = 0;
 }
 
-/* one call of the terminal automaton: in < 0 means "no byte" (initial step: prints the prompt only) */
-static inline int spec_term_step(struct term_ref *t, int in, const struct ed_oracle *o)
+/* one call of the terminal automaton, in three parts so that a modular proof can put the real editor's outcome
+ * (proved equal to spec_ed_key's by the refinement unit) in the middle.  in < 0 means "no byte" (initial step:
+ * prints the prompt only).
+ * spec_term_begin: what happens before the editor sees the byte; returns 0 no byte, 1 interrupt (Ctrl-C), 2 the byte
+ * goes to the editor.  spec_term_end: what happens after the editor answered ed_ret. */
+static inline int spec_term_begin(struct term_ref *t, int in)
 {
-    int ret = ED_NOTHING;
     t->delivered = 0;
     t->interrupted = 0;
     t->prompts = 0;
     if (t->fresh) spec_term_fresh(t);
-    if (in < 0) return ret;
+    if (in < 0) return 0;
     if ((char)in == ED_KEY_CTRL_C) {
         t->interrupted = 1;
         spec_term_fresh(t);
-        return ret;
+        return 1;
     }
-    ret = spec_ed_key(&t->ed, (char)in, o);
-    if (ret == ED_NEWLINE) {
+    return 2;
+}
+static inline void spec_term_end(struct term_ref *t, int ed_ret)
+{
+    if (ed_ret == ED_NEWLINE) {
         t->delivered = 1;
         t->dl_len = t->ed.l.len;
         t->dl_at_k = t->ed.l.at_k;
         spec_term_fresh(t);
     }
+}
+static inline int spec_term_step(struct term_ref *t, int in, const struct ed_oracle *o)
+{
+    int ret;
+    if (spec_term_begin(t, in) != 2) return ED_NOTHING;
+    ret = spec_ed_key(&t->ed, (char)in, o);
+    spec_term_end(t, ret);
     return ret;
 }
 #endif
